@@ -370,6 +370,47 @@ impl DbcParser {
 
     /// Parse all records from the DBC file
     pub fn parse_records(&self) -> Result<RecordSet> {
+        // The header is untrusted: before anything is allocated from its counts, the record
+        // area and the string block it describes must lie inside the file.
+        let data_len = self.data.len() as u64;
+        let record_count = self.header.record_count as u64;
+        let record_size = self.header.record_size as u64;
+        if record_count > 0 && record_size == 0 {
+            return Err(Error::InvalidHeader(
+                "Record size cannot be 0 if record count is greater than 0".to_string(),
+            ));
+        }
+        let records_end = self
+            .record_data_offset
+            .checked_add(record_count * record_size)
+            .filter(|end| *end <= data_len)
+            .ok_or_else(|| {
+                Error::InvalidHeader(format!(
+                    "{record_count} records of {record_size} bytes at offset {} do not fit in a file of {data_len} bytes",
+                    self.record_data_offset
+                ))
+            })?;
+        let _ = records_end;
+        if self
+            .string_block_offset
+            .checked_add(self.header.string_block_size as u64)
+            .is_none_or(|end| end > data_len)
+        {
+            return Err(Error::InvalidHeader(format!(
+                "String block of {} bytes at offset {} does not fit in a file of {data_len} bytes",
+                self.header.string_block_size, self.string_block_offset
+            )));
+        }
+        if self.schema.is_none()
+            && record_count > 0
+            && self.header.field_count as u64 * 4 > data_len
+        {
+            return Err(Error::InvalidHeader(format!(
+                "{} fields per record do not fit in a file of {data_len} bytes",
+                self.header.field_count
+            )));
+        }
+
         let mut cursor = Cursor::new(self.data.as_slice());
 
         // Skip to the record data (uses version-specific offset)
